@@ -34,10 +34,13 @@ def check(tier="quick", seed=0, workers=None, only=None, pid=PID, prefixes=PREFI
     st = engine.explore_many(specs, workers=workers, bound=1, seed=seed, max_violations=400)
     from . import conc
     cst, cinfo = conc.run_for(pid, tier, seed, workers, only)
-    viols = common.collect(st, prefixes) + common.collect(cst, prefixes)
+    from . import rconc
+    rst, rinfo = rconc.run_for(pid, tier, seed, workers, only)
+    viols = common.collect(st, prefixes) + common.collect(cst, prefixes) + common.collect(rst, prefixes)
     total = engine.Stats(bound=1)
     total.merge_from(st)
     total.merge_from(cst)
+    total.merge_from(rst)
     total.samples = st.samples[:3] + cst.samples[:4]
     cov = evidence.stats_coverage(
         total,
@@ -45,7 +48,7 @@ def check(tier="quick", seed=0, workers=None, only=None, pid=PID, prefixes=PREFI
               "x every fault kind applicable to it (deviation bound 1 = one fault per execution, complete); concurrent part: see "
               "'concurrent' key; non-trivial = outcome class (victim result, pool repr, probe result, fault@op) of an execution with an injected fault or a cancellation"),
         extra={"sequential": {"scenarios": len(specs), "executions": st.evaluations, "states": st.states},
-               "concurrent": cinfo, "other_oracles_seen": common.foreign(st, prefixes)})
+               "concurrent": cinfo, "trio_world": rinfo, "other_oracles_seen": common.foreign(st, prefixes)})
     return {"level": "fault_enumeration", "coverage": cov, "violations": viols,
             "assumptions": ["faults are the documented backend exceptions; a failed write delivers none of its bytes; a hard read/write error means the peer is gone",
                             "start_tls closes the transport when it fails with an Exception, as all three real backends do; not on cancellation"]}
